@@ -80,6 +80,7 @@ fn base_case(s: &Scenario, backend: Backend, level: u32, rng: &mut Rng) -> Case 
         peer: s.peer.clone(),
         fault: Fault::None,
         pregrow: None,
+        far_move: None,
         junk: rng.next() | 1,
         alloc: AllocPlan::OFF,
         hash_seed: rng.next(),
@@ -101,6 +102,7 @@ fn guard_plan(rng: &mut Rng) -> AllocPlan {
 }
 
 const EQUIV_FAMS: &[(Family, u32)] = &[
+    (Family::Long, 1),
     (Family::Explosive, 2),
     (Family::Nested, 1),
     (Family::Idioms, 3),
@@ -399,6 +401,17 @@ pub fn make_checks(prop: &str, rng: &mut Rng, env: &GenEnv) -> (Vec<Check>, Stri
                         let mut ck = c.clone();
                         ck.alloc.fail_at = Some(k);
                         out.push(mk(prop, Kind::AllocFail, ck, env));
+                    }
+                    if rng.chance(1, 3) {
+                        // the same clause through each executor: the pointer is parked where no
+                        // allocation can reach (abort, or panic for byte sizes beyond isize::MAX),
+                        // the panic is caught and the context dropped under the guard allocator
+                        let mut cf = c.clone();
+                        cf.program = rng.pick(&["+.", ",.", ">+<-.", "-[.-]", "+[>+<-]>."]).to_string();
+                        let exp = if rng.coin() { rng.range(58, 62) } else { rng.range(44, 62) };
+                        let d = (1i64 << exp) + *rng.pick(&[0i64, 1, -1, 4096]);
+                        cf.far_move = Some(if rng.coin() { d } else { -d });
+                        out.push(mk(prop, Kind::AllocFail, cf, env));
                     }
                 }
             }
